@@ -101,6 +101,30 @@ def obligations():
             out.append(('C12/inventory/%s.%s/mutable_is_reset' % loc, False, 'mutable class-level object %s.%s = %s is not reset by PEP._reset_classes' % (loc[0], loc[1], init)))
     out.append(('C12/inventory/PEP.__init__/resets_first', a['init_first'] is not None and '_reset_classes()' in a['init_first'],
                 'first statement of PEP.__init__: %s' % a['init_first']))
+    # the reset happens when a model is created, and only then (a reset triggered by anything else - garbage collection, a solve - would wipe the registries
+    # of the model being built): every call of _reset_classes in the package sits in PEP.__init__
+    import ast as _ast, os as _os
+    root = _os.environ.get('PEPIT_REPO', '/repo')
+    callers = []
+    for dp, dn, fns in _os.walk(_os.path.join(root, 'PEPit')):
+        dn[:] = [d for d in dn if d not in ('examples', '__pycache__')]
+        for fname in fns:
+            if not fname.endswith('.py'):
+                continue
+            path = _os.path.join(dp, fname)
+            try:
+                tree = _ast.parse(open(path).read())
+            except SyntaxError:
+                continue
+            for cls in [n for n in _ast.walk(tree) if isinstance(n, _ast.ClassDef)] + [tree]:
+                for fn in [n for n in getattr(cls, 'body', []) if isinstance(n, (_ast.FunctionDef, _ast.AsyncFunctionDef))]:
+                    for x in _ast.walk(fn):
+                        if isinstance(x, _ast.Call) and ((isinstance(x.func, _ast.Attribute) and x.func.attr == '_reset_classes') or
+                                                         (isinstance(x.func, _ast.Name) and x.func.id == '_reset_classes')):
+                            callers.append('%s.%s (%s:%d)' % (getattr(cls, 'name', '<module>'), fn.name, _os.path.relpath(path, root), x.lineno))
+    bad = sorted(set(c for c in callers if not c.startswith('PEP.__init__ ')))
+    out.append(('C12/inventory/_reset_classes/called_only_when_a_model_is_created', not bad and bool(callers),
+                '_reset_classes is called from %s' % (sorted(set(callers)) or 'nowhere')))
     for (rp, name), init in sorted(a['module_level'].items()):
         if name in ('WRAPPERS', '__all__') or name.isupper():
             w = a['mod_writes'].get(name, [])
